@@ -25,6 +25,7 @@ def main():
     ap.add_argument("--keep-as")
     ap.add_argument("--checks", default=None)
     ap.add_argument("--skip-tests", action="store_true")
+    ap.add_argument("--refactor", action="store_true", help="the candidate is a behaviour-preserving edit: the demonstration must pass with it and every check must stay silent (kept under /verif/refactors/<name>)")
     a = ap.parse_args()
     cand = os.path.abspath(a.cand)
     meta = json.load(open(os.path.join(cand, "meta.json")))
@@ -50,7 +51,7 @@ def main():
         res["demo_with_patch"] = rc4
         res["demo_tail"] = out4.strip().splitlines()[-3:]
         os.remove(os.path.join(wt, "_demo.py"))
-        confirmed = res["demo_on_head"] == 0 and rc2 == 0 and rc4 != 0 and (a.skip_tests or " passed" in res["tests"] and "failed" not in res["tests"])
+        confirmed = res["demo_on_head"] == 0 and rc2 == 0 and (rc4 == 0 if a.refactor else rc4 != 0) and (a.skip_tests or " passed" in res["tests"] and "failed" not in res["tests"])
         res["confirmed"] = confirmed
         checks = [prop] if not a.checks else ([c["property_id"] for c in json.load(open(os.path.join(VERIF, "MANIFEST.json")))["checks"]] if a.checks == "all" else a.checks.split(","))
         res["checks"] = {}
@@ -63,7 +64,7 @@ def main():
             res["checks"][c] = {"exit": p.returncode, "reports": [l[:300] for l in lines[:4]], "errors": [l[:300] for l in o.splitlines() if "ANALYSIS-ERROR" in l][:2]}
         print(json.dumps(res, indent=1))
         if a.keep_as and confirmed:
-            dst = os.path.join(VERIF, "seeded", a.keep_as)
+            dst = os.path.join(VERIF, "refactors" if a.refactor else "seeded", a.keep_as)
             os.makedirs(dst, exist_ok=True)
             for f in ("patch.diff", "demo.py"):
                 if os.path.realpath(os.path.join(cand, f)) != os.path.realpath(os.path.join(dst, f)):
@@ -75,7 +76,7 @@ def main():
                     "pytest -q -p no:cacheprovider -n 8 with the patch -> %s" % res.get("tests"),
                     "demo.py with the patch -> exit %d" % rc4,
                 ],
-                "checks_quick": {c: ("caught (exit 1)" if v["exit"] == 1 else "analysis-error (exit 2)" if v["exit"] == 2 else "missed (exit 0)") for c, v in res["checks"].items()},
+                "checks_quick": {c: (("FALSE ALARM (exit 1)" if a.refactor else "caught (exit 1)") if v["exit"] == 1 else "analysis-error (exit 2)" if v["exit"] == 2 else ("silent (exit 0)" if a.refactor else "missed (exit 0)")) for c, v in res["checks"].items()},
                 "first_reports": {c: v["reports"][:2] for c, v in res["checks"].items() if v["reports"]},
                 "repo_head": subprocess.run("git -C /repo rev-parse --short HEAD", shell=True, capture_output=True, text=True).stdout.strip(),
             }
